@@ -77,7 +77,7 @@ func c05Build(t *c05Typ, v *c05JV) (out reflect.Value, ok bool) {
 			if !ok {
 				return out, false
 			}
-			val.SetMapIndex(reflect.ValueOf(v.M[i].K), e)
+			val.SetMapIndex(reflect.ValueOf(v.M[i].K).Convert(base.Key()), e)
 		}
 	case "bool":
 		if v.T != "bool" {
@@ -192,6 +192,9 @@ func c05HTTPSanitize(fs []c05Fld, top bool) []c05Fld {
 			f.Str = false
 		}
 		f.Env, f.EV, f.Inh = false, nil, false
+		if top && f.T.D && f.Rng != nil {
+			f.T.D = false // httpc checks range= of top-level fields with a type switch over the basic types only
+		}
 		if top && f.T.P && c05IsScalar(f.T.K) {
 			// httpc validates options/range of top-level fields with fmt.Sprint / a type switch: not for pointers
 			f.Opts, f.Rng, f.Def = nil, nil, nil
@@ -216,6 +219,10 @@ func c05HTTPSanitizeTyp(t *c05Typ) {
 			t.F = []c05Fld{{W: []string{"only"}, T: c05Typ{K: "int"}, Tag: "json", KS: "camel"}}
 		}
 	case "slice", "map":
+		if t.K == "slice" && t.E.K == "bool" && t.E.D {
+			t.E.D = false // []DefinedBool is rejected by the server side (type mismatch error)
+		}
+		t.DK = false // map[DefinedKey]T likewise
 		if t.K == "slice" && t.E.K == "uint8" && !t.E.P {
 			t.E.K = "uint16" // []uint8 is []byte: encoding/json sends base64
 		}
@@ -267,6 +274,19 @@ func c05GenHTTPCase(rt *rapid.T) c05HTTPCase {
 			}
 		}
 		c.S = append(c.S, f)
+	}
+	// fields tagged for two or three request parts: httpc sends the value through the part
+	// named first, httpx.Parse visits the same struct once per part
+	for i := range c.S {
+		f := &c.S[i]
+		if !c05IsScalar(f.T.K) || f.T.K == "text" || rapid.IntRange(0, 3).Draw(rt, "multitag") != 0 {
+			continue
+		}
+		for _, t2 := range []string{"path", "form", "header", "json"} {
+			if t2 != f.Tag && t2 != "path" && rapid.IntRange(0, 2).Draw(rt, "tag2") == 0 {
+				f.Tag2 = append(f.Tag2, t2)
+			}
+		}
 	}
 	// values: every field present (absent only when optional and unconstrained)
 	g := &c05DocGen{rt: rt, plain: true, p5: true}
@@ -369,7 +389,7 @@ func c05Server() *httptest.Server {
 
 func c05InterpHTTP(c c05HTTPCase) (v kit.Verdict) {
 	defer c05EnvCleanup()
-	if msg := c05History(nil); msg != "" {
+	if msg, _ := c05History(nil); msg != "" {
 		return kit.Verdict{Fail: msg, Classes: []string{"history-panic"}}
 	}
 	cc := c05Case{S: c.S, D: c.D}
@@ -393,6 +413,9 @@ func c05InterpHTTP(c c05HTTPCase) (v kit.Verdict) {
 	pattern := "/r"
 	for i := range c.S {
 		classes["part:"+c.S[i].Tag] = true
+		if len(c.S[i].Tag2) > 0 {
+			classes[fmt.Sprintf("multi-part-field:%d", len(c.S[i].Tag2)+1)] = true
+		}
 		if c.S[i].Tag == "path" {
 			pattern += "/:" + c.S[i].key(i)
 		}
